@@ -57,18 +57,40 @@ Theorem atom_init_refines_map : forall m s g hs, Rel m s -> op_ok (AInit g hs) s
 Proof. exact init_refines. Qed.
 Print Assumptions atom_init_refines_map.
 
-(** History level.  PARTIAL: proved for all histories of HAinit_group / HAregister_atom / HAatom_object /
-    HAatom_group calls from the initial state (any interleaving, any ids, any number of groups), with fewer than
-    2^28 registrations per group lifetime.  Missing for the full statement [atom_refines_map] (all seven
-    operations): the step lemmas for HAremove_atom, HAdestroy_group and HAsearch_atom
-    ([forall m s o, Rel m s -> op_ok o s = true -> results agree /\ Rel is kept] for o = ARemove / ADestroy /
-    ASearch; ASearch needs in addition the bucket-membership invariant "a node in bucket b of group g has
-    ATOM_TO_GROUP = g and ATOM_TO_LOC = b").  Those three operations are covered by the state-for-state
-    correspondence run only. *)
-Theorem atom_refines_map_partial : forall h, forallb op_covered h = true -> hist_ok h s_init = true ->
+(** The remaining steps: HAremove_atom (incl. the "delete from cache" loop), HAdestroy_group (incl. dropping the
+    group's cache entries), and HAsearch_atom (under the additional invariants of [Rel2]: a node in bucket b of
+    group g decodes to (g, b), and a table has one list per bucket). *)
+Theorem atom_remove_refines_map : forall m s id, Rel m s ->
+  fst (ha_remove id m) = fst (s_step (ARemove id) s) /\ Rel (snd (ha_remove id m)) (snd (s_step (ARemove id) s)).
+Proof. exact remove_refines. Qed.
+Print Assumptions atom_remove_refines_map.
+
+Theorem atom_destroy_refines_map : forall m s g, Rel m s ->
+  fst (ha_destroy g m) = fst (s_step (ADestroy g) s) /\ Rel (snd (ha_destroy g m)) (snd (s_step (ADestroy g) s)).
+Proof. exact destroy_refines. Qed.
+Print Assumptions atom_destroy_refines_map.
+
+Theorem atom_search_refines_map : forall m s g key, Rel2 m s ->
+  ha_search g key m = fst (s_step (ASearch g key) s).
+Proof. exact search_refines. Qed.
+Print Assumptions atom_search_refines_map.
+
+(** History level, FULL: for every history of the seven operations (any interleaving over any groups, any ids:
+    live, removed, never issued, foreign or invalid group, double removal, destroy and re-initialisation) with
+    non-NULL objects and fewer than 2^28 registrations per group lifetime, the atom table of atom.c returns, call
+    by call, exactly what the finite map returns. *)
+Theorem atom_refines_map : forall h, hist_ok h s_init = true ->
   fst (m_run h m_init) = fst (s_run h s_init).
-Proof. exact atom_refines_map_partial_lemma. Qed.
-Print Assumptions atom_refines_map_partial.
+Proof. exact atom_refines_map_lemma. Qed.
+Print Assumptions atom_refines_map.
+
+(** ... and along every such history no id is live twice, the uncached lookup equals the map for every id, and
+    the cache holds only live ids with their own objects, none twice ("the cache never holds a removed id"). *)
+Theorem atom_reachable_invariant : forall h, hist_ok h s_init = true ->
+  let m := snd (m_run h m_init) in let s := snd (s_run h s_init) in
+  NoDup (map fst (slive s)) /\ (forall id, m_find id m = s_lookup id s) /\ Cinv m.
+Proof. exact reachable_invariant_lemma. Qed.
+Print Assumptions atom_reachable_invariant.
 
 (** The hypothesis the proof forces is necessary: in ANY state whose group counter stands at n + 2^28,
     HAregister_atom issues the id of registration number n again (no in-use check) -- two live handles alias
@@ -102,9 +124,62 @@ Theorem wrong_kind_id_rejected : forall st id f, aget id (fids st) = Some (OAid 
 Proof. exact wrong_kind_id_rejected_lemma. Qed.
 Print Assumptions wrong_kind_id_rejected.
 
+(** Once every id is released (all records closed, id map empty) nothing of the past reaches the next open: it
+    succeeds for every valid mode, and the record it designates -- reference count 1, no attached elements, access
+    from the mode alone -- is exactly the record the very first open of a fresh library creates; no other id is valid. *)
+Theorem all_released_is_initial : forall st p acc,
+  f_quiescent st = true -> Z.land acc DFACC_ALL = acc ->
+  let fr := mkF p 1 0 (if acc =? DFACC_CREATE then DFACC_ALL else Z.lor acc DFACC_READ) in
+  exists st' r,
+    f_step (FOpen p acc) st = (ROk (fnext st), st') /\
+    file_of (fnext st) st' = Some (r, fr) /\ fids st' = [(fnext st, OFile r)] /\
+    (forall id, id <> fnext st -> aget id (fids st') = None) /\
+    file_of 0 (snd (f_step (FOpen p acc) f_init)) = Some (0, fr) /\
+    fst (f_step (FOpen p acc) f_init) = ROk 0.
+Proof. exact all_released_is_initial_lemma. Qed.
+Print Assumptions all_released_is_initial.
+
+(** SD ids (expressions regenerated from mfsd.c SDstart / SDselect / SDgetdimid / SDIhandle_from_id / SDIget_var /
+    SDIget_dim): file slot, kind and index are recovered exactly, for every slot below 2048 and index below 2^16. *)
+Theorem sdid_decode_encode : forall c i d, 0 <= c < 2048 -> 0 <= i < 65536 -> 0 <= d < 65536 ->
+  let fid := SD_file_id c in let sds := SD_sds_id fid i in let dim := SD_dim_id sds d in
+  (SD_id_type fid = CDFTYPE /\ SD_id_slot fid = c) /\
+  (SD_id_type sds = SDSTYPE /\ SD_id_slot sds = c /\ SD_var_index sds = i) /\
+  (SD_id_type dim = DIMTYPE /\ SD_id_slot dim = c /\ SD_dim_index dim = d) /\
+  fid <> -1 /\ sds <> -1 /\ dim <> -1.
+Proof. exact sdid_decode_encode_lemma. Qed.
+Print Assumptions sdid_decode_encode.
+
+(** SDIhandle_from_id + NC_check_id: whatever passes has the expected kind and an open slot; a dataset id is
+    rejected where a file or dimension id is expected and when its file slot is closed. *)
+Theorem sdid_kind_check : forall id typ ncdf open slot,
+  sd_check id typ ncdf open = Some slot ->
+  id <> -1 /\ SD_id_type id = typ /\ slot = SD_id_slot id /\ 0 <= slot < ncdf /\ open slot = true.
+Proof. exact sdid_kind_check_lemma. Qed.
+Print Assumptions sdid_kind_check.
+
+Theorem sdid_wrong_kind_or_closed_rejected : forall c i ncdf open, 0 <= c < 2048 -> 0 <= i < 65536 ->
+  let sds := SD_sds_id (SD_file_id c) i in
+  sd_check sds CDFTYPE ncdf open = None /\ sd_check sds DIMTYPE ncdf open = None /\
+  (open c = false -> sd_check sds SDSTYPE ncdf open = None) /\
+  (0 <= c < ncdf -> open c = true -> sd_check sds SDSTYPE ncdf open = Some c).
+Proof. exact sdid_wrong_kind_or_closed_rejected_lemma. Qed.
+Print Assumptions sdid_wrong_kind_or_closed_rejected.
+
 (** Non-vacuity: the hypotheses are met by concrete non-trivial states / histories. *)
 Example init_state_related : Rel m_init s_init.
 Proof. exact Rel_init. Qed.
+Example full_history_in_domain :
+  let h := [AInit 2 4; AReg 2 11; AReg 2 12; AReg 2 13; AReg 2 14; AReg 2 15; ALookup 536870912; ALookup 536870916;
+            ARemove 536870912; ALookup 536870912; ARemove 536870912; ASearch 2 13; ASearch 2 11; ADestroy 2;
+            ALookup 536870913; AInit 2 8; AReg 2 31; ALookup 536870912; AGroup (-1)] in
+  hist_ok h s_init = true /\
+  fst (m_run h m_init) = [0; 536870912; 536870913; 536870914; 536870915; 536870916; 11; 15; 11; 0; 0; 13; 0; 0; 0; 0;
+                          536870912; 31; -1].
+Proof. vm_compute. auto. Qed.
+Example sd_ids : SD_file_id 3 = 3538947 /\ SD_sds_id (SD_file_id 3) 5 = 3407877 /\
+                 SD_dim_id (SD_sds_id (SD_file_id 3) 5) 2 = 3473410.
+Proof. vm_compute. auto. Qed.
 Example history_in_domain :
   let h := [AInit 2 64; AReg 2 11; AReg 2 12; ALookup 536870912; ALookup 536870913; ALookup 536870912;
             ALookup (-1); ALookup 268435456; AGroup 536870913; AInit 2 64; AReg 8 5; AInit 8 2; AReg 8 5;
